@@ -61,15 +61,89 @@ U(id="fib.continue", **{"class": "full-domain"},
     {"name": "refusal-returns-ok", "file": "vm.c", "find": "    JanetSignal tmp_signal = janet_check_can_resume(fiber, out, 0);\n    if (tmp_signal) return tmp_signal;", "replace": "    JanetSignal tmp_signal = janet_check_can_resume(fiber, out, 0);\n    if (tmp_signal) return JANET_SIGNAL_OK;", "expect": "postcondition"},
   ])
 U(id="fib.continue_signal", **{"class": "bounded"}, bound="chain of pending children below the fiber: at most 2 links (loop unwound 3x with unwinding assertion)",
-  clause="janet_continue_signal (cancel / resume with a signal): same protocol as janet_continue - a finished fiber cannot be cancelled or resumed, refusal leaves the fiber "
+  clause="janet_continue_signal (cancel / resume with a signal): the signal is planted in the innermost fiber of the pending chain and in no other; same protocol as janet_continue - a finished fiber cannot be cancelled or resumed, refusal leaves the fiber "
          "untouched and never enters the VM, accepted => status == returned signal, VM registers restored",
   src=["vm.c"], link=["fiber.c"], link_keep=KEEP, harness=["fib_check.c", "fib_continue.c"], entry="h_continue_signal", defines=["-DFIB_NO_MSG"],
-  mode="dfcc", enforce=["janet_continue_signal/fib_continue_signal_c"], replace=CHKC + MSG, checks=CHK, cbmc=CADICAL, object_bits=8,
-  unwindset={"janet_continue_signal.0": 4},
+  mode="dfcc", enforce=["janet_continue_signal/fib_continue_signal_c"], replace=[CHKC[0], "janet_continue_no_check/fib_no_check_sig_c"] + MSG, checks=CHK, cbmc=CADICAL, object_bits=8,
+  unwindset={"janet_continue_signal_wrapped_for_contract_checking.0": 4},
   assumes=["janet_check_can_resume and janet_continue_no_check are replaced by their contracts (proved in fib.check_can_resume, fib.continue_no_check)"],
   mutants=[
     {"name": "check-result-ignored", "file": "vm.c", "find": "sig != JANET_SIGNAL_OK);\n    if (tmp_signal) return tmp_signal;", "replace": "sig != JANET_SIGNAL_OK);", "expect": "precondition|postcondition"},
-    {"name": "signal-flag-on-root-of-chain", "file": "vm.c", "find": "        while (child->child) child = child->child;\n", "replace": "", "expect": "."},
+    {"name": "signal-flag-on-root-of-chain", "file": "vm.c", "find": "        while (child->child) child = child->child;\n", "replace": "", "expect": "precondition"},
+    {"name": "signal-in-wrong-word", "file": "vm.c", "find": "        child->flags |= JANET_FIBER_RESUME_SIGNAL;", "replace": "        fiber->flags |= JANET_FIBER_RESUME_SIGNAL;", "expect": "precondition"},
+  ])
+
+U(id="fib.signalv", **{"class": "full-domain"},
+  clause="janet_signalv: signal (as passed to longjmp) and value arrive unchanged at the innermost janet_try; under coerce_error every non-OK signal becomes ERROR, an error keeps its value, "
+         "an await bumps the root fiber's generation; the running fiber is only marked DID_LONGJUMP; never returns",
+  src=["capi.c"], harness=["fib_signalv.c"], entry="h_signalv", mode="plain", defines=["-DVC_OWN_PANIC"],
+  replace_calls=["longjmp:fib_longjmp_stub"], functions=["janet_signalv"], checks=CHK,
+  assumes=["longjmp transfers control to the setjmp of the given buffer with the given value (stub asserts the state at the jump)",
+           "janet_formatc / janet_nanbox_from_cpointer (message for a coerced signal) have no side effects"],
+  mutants=[
+    {"name": "coercion-dropped", "file": "capi.c", "find": "            sig = JANET_SIGNAL_ERROR;\n        }\n        *janet_vm.return_reg = message;", "replace": "        }\n        *janet_vm.return_reg = message;", "expect": "C05 signalv: under coerce_error"},
+    {"name": "coerce-also-ok", "file": "capi.c", "find": "if (janet_vm.coerce_error && sig != JANET_SIGNAL_OK) {", "replace": "if (janet_vm.coerce_error) {", "expect": "C05 signalv: without coercion"},
+    {"name": "generation-bump-dropped", "file": "capi.c", "find": "                janet_vm.root_fiber->sched_id++;", "replace": "", "expect": "C05 signalv: a coerced await"},
+    {"name": "value-not-stored", "file": "capi.c", "find": "        *janet_vm.return_reg = message;\n", "replace": "", "expect": "C05 signalv: without coercion"},
+  ])
+
+U(id="fib.signalv.delivered", **{"class": "full-domain"}, tier="thorough",
+  disabled_reason="FAILS on the real code for sig == JANET_SIGNAL_OK (suspected genuine defect, low severity): janet_signalv(JANET_SIGNAL_OK, x) calls longjmp(buf, 0), "
+                  "which makes setjmp return 1 == JANET_SIGNAL_ERROR. Reproducer: (def f (fiber/new (fn [] (signal :ok 5)) :a)) (resume f) (fiber/status f) => :error, "
+                  "although the docstring of `signal` lists :ok; the value 5 arrives, the signal does not.",
+  clause="janet_signalv: the signal seen by the enclosing janet_try (longjmp value, 0 mapped to 1 as ISO C prescribes) is the signal raised",
+  src=["capi.c"], harness=["fib_signalv.c"], entry="h_signalv", mode="plain", defines=["-DVC_OWN_PANIC", "-DFIB_DELIVERED"],
+  replace_calls=["longjmp:fib_longjmp_stub"], functions=["janet_signalv"], checks=CHK,
+  assumes=["longjmp(env, 0) behaves as longjmp(env, 1) (ISO C 7.13.2.1)"],
+  mutants=[
+    {"name": "coercion-dropped", "file": "capi.c", "find": "            sig = JANET_SIGNAL_ERROR;\n        }\n        *janet_vm.return_reg = message;", "replace": "        }\n        *janet_vm.return_reg = message;", "expect": "C05 signalv"},
+  ])
+
+NEWSTUBS = ["janet_getfunction:fib_getfunction_stub", "janet_getbytes:fib_getbytes_stub", "janet_gettable:fib_gettable_stub",
+            "janet_table:fib_table_stub", "janet_fiber:fib_fiber_stub"]
+U(id="fib.new.flags", **{"class": "bounded"}, bound="flag keyword of at most 10 characters, every character fully symbolic (loops unwound with unwinding assertion)",
+  clause="fiber/new: the mask bits set are exactly those named by the flag keyword (reference decoding from the docstring), unknown characters are refused, the fiber starts NEW, "
+         "and the environment is inherited only through :i / :p (last one wins)",
+  src=["fiber.c"], harness=["fib_new.c"], entry="h_fiber_new", mode="plain", defines=["-DFIB_MAXLEN=10"], replace_calls=NEWSTUBS, functions=["cfun_fiber_new"],
+  checks=CHK, unwind=12, unwinding_assertions=True,
+  assumes=["janet_fiber returns a NEW fiber with the default mask (fiber_reset, unit fib.new.reset); janet_getfunction/janet_getbytes/janet_gettable return their argument's payload; janet_table returns a fresh table"],
+  mutants=[
+    {"name": "t-includes-user5", "file": "fiber.c", "find": "                            JANET_FIBER_MASK_USER4;\n                        break;\n                    case 'd':", "replace": "                            JANET_FIBER_MASK_USER4 | JANET_FIBER_MASK_USER5;\n                        break;\n                    case 'd':", "expect": "exactly those named"},
+    {"name": "w-is-user8", "file": "fiber.c", "find": "                    case 'w':\n                        fiber->flags |= JANET_FIBER_MASK_USER9;", "replace": "                    case 'w':\n                        fiber->flags |= JANET_FIBER_MASK_USER8;", "expect": "exactly those named"},
+    {"name": "digit-off-by-one", "file": "fiber.c", "find": "JANET_FIBER_MASK_USERN(view.bytes[i] - '0');", "replace": "JANET_FIBER_MASK_USERN(view.bytes[i] - '1');", "expect": "exactly those named|overflow|shift"},
+    {"name": "default-mask-kept", "file": "fiber.c", "find": "        fiber->flags = JANET_FIBER_RESUME_NO_USEVAL | JANET_FIBER_RESUME_NO_SKIP;\n", "replace": "        fiber->flags |= JANET_FIBER_RESUME_NO_USEVAL | JANET_FIBER_RESUME_NO_SKIP;\n", "expect": "exactly those named"},
+    {"name": "p-shares-env", "file": "fiber.c", "find": "                        fiber->env = janet_table(0);\n                        fiber->env->proto = janet_vm.fiber->env;", "replace": "                        fiber->env = janet_vm.fiber->env;", "expect": ":p gives a fresh table"},
+  ])
+U(id="fib.new.reset", **{"class": "full-domain"},
+  clause="fiber_reset: every fiber starts in status NEW with the default mask :y, no child, no environment, empty stack",
+  src=["fiber.c"], harness=["fib_new.c"], entry="h_fiber_reset", mode="plain", replace_calls=NEWSTUBS, functions=["fiber_reset"], checks=CHK, unwind=7,
+  mutants=[
+    {"name": "status-not-new", "file": "fiber.c", "find": "    janet_fiber_set_status(fiber, JANET_STATUS_NEW);\n}", "replace": "}", "expect": "status NEW"},
+    {"name": "child-not-cleared", "file": "fiber.c", "find": "    fiber->child = NULL;\n    fiber->flags = JANET_FIBER_MASK_YIELD", "replace": "    fiber->flags = JANET_FIBER_MASK_YIELD", "expect": "no child"},
+  ])
+
+FRAMEREPL = ["janet_fiber_setcapacity/fib_setcapacity_c", "janet_tuple_n/fib_tuple_n_c", "make_struct_n/fib_make_struct_n_c",
+             "janet_env_detach/fib_env_detach_c", "memmove/fib_memmove_c"]
+NIL = "0xFFF8800000000001ul"
+U(id="fib.funcframe", **{"class": "proved"},
+  clause="janet_fiber_funcframe: an arity mismatch is refused and changes nothing (fields and every stack slot); on success the new frame is linked to the old one and "
+         "every new slot in [old stacktop, new stacktop) is nil (ghost index; the variadic slot holds the rest tuple), any slot count up to 2^24, no int32 overflow below 2^30 stack slots",
+  src=["fiber.c"], link=["wrap.c"], link_keep={"wrap.c": ["janet_nanbox_from_bits"]}, harness=["fib_frame.c"], entry="h_funcframe",
+  mode="dfcc", enforce=["janet_fiber_funcframe/fib_funcframe_c"], replace=FRAMEREPL, checks=CHK, cbmc=CADICAL, object_bits=8,
+  loops={"janet_fiber_funcframe": [{"loop_id": "0",
+     "invariants": "i >= oldtop && (i <= nextstacktop || oldtop > nextstacktop) && oldtop == fiber->stacktop && nextstacktop <= fiber->capacity && ((g_idx >= oldtop && g_idx < i) ==> fiber->data[g_idx].u64 == " + NIL + ")",
+     "assigns": "i, __CPROVER_object_whole(fiber->data)", "decreases": "nextstacktop - i",
+     "symbol_map": "i,janet_fiber_funcframe::1::i;oldtop,janet_fiber_funcframe::1::oldtop;nextstacktop,janet_fiber_funcframe::1::nextstacktop;fiber,janet_fiber_funcframe::fiber"}]},
+  loop_counts={"janet_fiber_funcframe": 1},
+  assumes=["janet_fiber_setcapacity (realloc) is replaced by a contract: capacity == n and a stack object of n slots; old contents not modelled",
+           "janet_tuple_n / make_struct_n only read their argument range (asserted) and have no side effect on the fiber",
+           "stack below 2^30 - 2^24 slots (8 GiB): beyond it `2 * nextstacktop` leaves int32 (needs more memory than a fiber can get before 'out of memory')"],
+  mutants=[
+    {"name": "nil-fill-starts-late", "file": "fiber.c", "find": "    for (i = fiber->stacktop; i < nextstacktop; ++i) {", "replace": "    for (i = fiber->stacktop + 1; i < nextstacktop; ++i) {", "expect": "postcondition|loop_invariant"},
+    {"name": "arity-check-after-grow", "file": "fiber.c", "find": "    if (next_arity > func->def->max_arity) return 1;\n\n    if (fiber->capacity < nextstacktop) {\n        janet_fiber_setcapacity(fiber, 2 * nextstacktop);\n#ifdef JANET_DEBUG\n    } else {\n        janet_fiber_refresh_memory(fiber);\n#endif\n    }\n\n    /* Nil unset stack", "replace": "    if (fiber->capacity < nextstacktop) {\n        janet_fiber_setcapacity(fiber, 2 * nextstacktop);\n    }\n    if (next_arity > func->def->max_arity) return 1;\n\n    /* Nil unset stack", "expect": "postcondition"},
+    {"name": "max-arity-unchecked", "file": "fiber.c", "find": "    if (next_arity > func->def->max_arity) return 1;\n\n    if (fiber->capacity < nextstacktop) {\n        janet_fiber_setcapacity(fiber, 2 * nextstacktop);\n#ifdef JANET_DEBUG\n    } else {\n        janet_fiber_refresh_memory(fiber);\n#endif\n    }\n\n    /* Nil unset stack", "replace": "    if (fiber->capacity < nextstacktop) {\n        janet_fiber_setcapacity(fiber, 2 * nextstacktop);\n    }\n\n    /* Nil unset stack", "expect": "postcondition"},
+    {"name": "prevframe-lost", "file": "fiber.c", "find": "    newframe->prevframe = oldframe;\n    newframe->pc = func->def->bytecode;", "replace": "    newframe->prevframe = nextframe;\n    newframe->pc = func->def->bytecode;", "expect": "postcondition"},
+    {"name": "capacity-check-off", "file": "fiber.c", "find": "    if (fiber->capacity < nextstacktop) {\n        janet_fiber_setcapacity(fiber, 2 * nextstacktop);\n#ifdef JANET_DEBUG\n    } else {\n        janet_fiber_refresh_memory(fiber);\n#endif\n    }\n\n    /* Nil unset stack", "replace": "    if (fiber->capacity < nextstacktop - 1) {\n        janet_fiber_setcapacity(fiber, 2 * nextstacktop);\n    }\n\n    /* Nil unset stack", "expect": "pointer_dereference|loop_invariant|postcondition|assigns"},
   ])
 
 json.dump({"units": units}, open(os.path.join(V, 'units', 'C05.json'), 'w'), indent=1)
